@@ -106,6 +106,13 @@ class Ctx:
     def resultv(self):
         return self._result
 
+    def view(self, v):
+        """post-state view of a value (element of a returned list, ...)"""
+        return unwrap(self._eng, self.post._objs, v)
+
+    def is_none(self, v):
+        return isinstance(v, V) and v.k == 'none'
+
     def exists_int(self, f, extra=(), exact=None):
         """∃k∈ℤ. f(k), discharged by instantiating k with integer terms that
         occur on the path (floor/div terms ±{0,1,2}). Must occur positively."""
@@ -475,6 +482,18 @@ class _MergedFields:
         d = dict(self._b.fields)
         d.update(self._a.fields)
         return d
+
+
+LEMMAS = {}
+
+
+def lemma(name, props, vcs, over=(), note=None):
+    """A lemma over contracts (not over code): vcs = [(vcname, thunk)] where
+    thunk() returns (assumptions, goal) as z3 terms; discharged by showing
+    assumptions ∧ ¬goal unsat. `over` names the contracts whose postconditions
+    the assumptions restate."""
+    LEMMAS[name] = {'name': name, 'props': tuple(props), 'vcs': vcs,
+                    'over': tuple(over), 'note': note}
 
 
 def contract(file, qual, **kw):
